@@ -1,5 +1,9 @@
-(* Props/C15.v — property theorems only. *)
-From Verif Require Import Base.Str Syntax.Schema Syntax.TypedJson Gen.Schema Gen.Operators Proofs.TypedJsonTableOk.
+(* Props/C15.v — property theorems only.
+   Model: Syntax/TypedJson.v (typedjson encodeValue/decodeValue over generic values and a JSON AST).
+   Gen/Schema.v (reflection) and Gen/Operators.v (operator strings, UnmarshalText tables, typedjson's
+   type names; dumped from the running code) are regenerated on every run. *)
+From Verif Require Import Base.Str Syntax.Schema Syntax.TypedJson Gen.Schema Gen.Operators
+  Proofs.TypedJsonProofs Proofs.TypedJsonTableOk.
 
 (* Every defined constant of every operator type (constants read from the source, String() and
    UnmarshalText run in the harness) survives String -> UnmarshalText. Finite, by computation. *)
@@ -13,3 +17,64 @@ Proof.
   destruct (op_unmarshal gen_tables uid s); [|discriminate]. apply N.eqb_eq in H. congruence.
 Qed.
 Print Assumptions C15_ops_roundtrip.
+
+(* What the round-trip proof needs from the running code's schema and tables (finite, re-checked each run):
+   field names distinct and never Type/Pos/End, no struct-valued fields besides Pos, every node struct is in
+   typedjson's nodeByName under its own name, interface implementers are nodes, Stringer <-> TextUnmarshaler,
+   operator tables round-trip. *)
+Theorem C15_schema_ok : schema_json_ok gen_schema gen_tables = true.
+Proof. exact gen_schema_json_ok. Qed.
+Print Assumptions C15_schema_ok.
+
+(* Round trip, for ANY schema and tables with schema_json_ok and any well-typed tree whose Encode
+   succeeds: Decode of the encoding is the tree with (a) positions that encodePos leaves out - recovered
+   positions (and the zero position, and the unconstructible offsets above the maximum) - unset,
+   (b) empty slices nil [my reading of "equal": a nil and an empty slice hold the same elements],
+   (c) the results of the Pos()/End() methods, which are not fields, dropped (erase). *)
+Theorem C15_roundtrip :
+  forall (sch : schema) (tb : tables), schema_json_ok sch tb = true ->
+  forall (u : value) (j : json),
+    has_type sch (TIface (node_iface sch)) (VIface (Some u)) = true ->
+    encode sch tb (VPtr (Some u)) = Ok j ->
+    decode sch tb j = Ok (VIface (Some (erase (canon u)))).
+Proof. exact roundtrip_root. Qed.
+Print Assumptions C15_roundtrip.
+
+Theorem C15_roundtrip_running_code :
+  forall (u : value) (j : json),
+    has_type gen_schema (TIface (node_iface gen_schema)) (VIface (Some u)) = true ->
+    encode gen_schema gen_tables (VPtr (Some u)) = Ok j ->
+    decode gen_schema gen_tables j = Ok (VIface (Some (erase (canon u)))).
+Proof. exact (roundtrip_root gen_schema gen_tables gen_schema_json_ok). Qed.
+Print Assumptions C15_roundtrip_running_code.
+
+(* canon only touches what the encoding cannot see: the canonical tree has the same JSON.
+   (Byte-identical re-encoding of the DECODED tree follows if Pos()/End() of the decoded tree equal
+   those of the original; the methods are not modelled, the Go-side search checks the bytes.) *)
+Theorem C15_reencode :
+  forall (sch : schema) (tb : tables) (v : value), encode sch tb (canon v) = encode sch tb v.
+Proof. exact encode_canon. Qed.
+Print Assumptions C15_reencode.
+
+(* Decode never panics: for any schema, tables, destination type and JSON value every reflect
+   operation of decodeValue runs under its guard. *)
+Theorem C15_decode_total :
+  forall (sch : schema) (tb : tables) (j : json), decode sch tb j <> Panic.
+Proof. exact decode_no_panic. Qed.
+Print Assumptions C15_decode_total.
+
+Theorem C15_decode_value_total :
+  forall (sch : schema) (tb : tables) (j : json) (t : ty), dec sch tb t j <> Panic.
+Proof. exact dec_no_panic. Qed.
+Print Assumptions C15_decode_value_total.
+
+(* Non-vacuity: a schema, tables and a tree (recovered position, empty non-nil slice, nested list,
+   interface field) satisfying the hypotheses, whose round trip really changes the tree. *)
+Example C15_nonvacuous :
+  schema_json_ok MiniJ.sch MiniJ.tb = true /\
+  has_type MiniJ.sch (TIface 0) (VIface (Some MiniJ.tree)) = true /\
+  exists j, encode MiniJ.sch MiniJ.tb (VPtr (Some MiniJ.tree)) = Ok j /\
+            decode MiniJ.sch MiniJ.tb j = Ok (VIface (Some (erase (canon MiniJ.tree)))) /\
+            erase (canon MiniJ.tree) <> erase MiniJ.tree.
+Proof. split; [exact MiniJ.ok|]. split; [exact MiniJ.typed|]. exact MiniJ.encodes. Qed.
+Print Assumptions C15_nonvacuous.
